@@ -730,7 +730,9 @@ class IntervalTier(textgrid_tier.TextgridTier):
             newEntryList.append(Interval(newStart, newEnd, sourceInterval.label))
 
         newMin = self.minTimestamp
-        cumulativeDifference = newEntryList[-1].end - self.entries[-1].end
+        cumulativeDifference = 0
+        if len(newEntryList) > 0:
+            cumulativeDifference = newEntryList[-1].end - self.entries[-1].end
         newMax = self.maxTimestamp + cumulativeDifference
 
         return IntervalTier(self.name, newEntryList, newMin, newMax)
